@@ -296,10 +296,21 @@ func ParseContractText(path, pkgPath, src string) (*ContractFile, error) {
 			}
 			cl.AtName = name
 			cl.AtAction = f[2]
-			if cl.AtAction != "assert" && cl.AtAction != "assume" {
+			if cl.AtAction != "assert" && cl.AtAction != "assume" && cl.AtAction != "havoc" {
 				return nil, errf("at action %q", cl.AtAction)
 			}
 			idx := strings.Index(rest, " "+f[2]+" ")
+			if cl.AtAction == "havoc" {
+				// at call NAME havoc loc, loc: other goroutines may have changed these locations by the time of the call
+				for _, part := range splitTop(strings.TrimSpace(rest[idx+len(f[2])+2:])) {
+					e, perr := parser.ParseExpr(part)
+					if perr != nil {
+						return nil, errf("havoc %q: %v", part, perr)
+					}
+					cl.Mods = append(cl.Mods, e)
+				}
+				break
+			}
 			cl.Label, cl.Expr, err = parseLabeled(strings.TrimSpace(rest[idx+len(f[2])+2:]))
 		default:
 			return nil, errf("unknown clause %q", word)
